@@ -4,6 +4,9 @@
 
 pub use crate::loader::safe_join;
 
+/// C10: the byte and substring search helpers the lexer scans with.
+pub use crate::utils::{memchr, memstr};
+
 /// C11: thread-local high-water marks of nested interpreter activations
 /// (`Executor::eval_impl`) and of `Context::depth()`, plus the stack pointer
 /// at the outermost and at the deepest activation.
